@@ -1,0 +1,47 @@
+//! Verification hooks, compiled only with `--cfg probminhash_verif`.
+//! Gives an external harness access to the crate-private max value tracker.
+
+pub use crate::maxvaluetrack::MaxValue;
+use crate::maxvaluetrack::MaxValueTracker;
+
+/// public wrapper around the crate-private MaxValueTracker
+pub struct MaxTracker<V>(MaxValueTracker<V>);
+
+impl<V> MaxTracker<V>
+where
+    V: MaxValue + PartialOrd + Copy + std::fmt::Debug,
+{
+    pub fn new(m: usize) -> Self {
+        MaxTracker(MaxValueTracker::new(m))
+    }
+
+    pub fn update(&mut self, k: usize, value: V) {
+        self.0.update(k, value)
+    }
+
+    pub fn get_max_value(&self) -> V {
+        self.0.get_max_value()
+    }
+
+    pub fn get_value(&self, slot: usize) -> V {
+        self.0.get_value(slot)
+    }
+
+    pub fn is_update_possible(&self, value: V) -> bool {
+        self.0.is_update_possible(value)
+    }
+
+    pub fn reset(&mut self) {
+        self.0.reset()
+    }
+
+    /// the whole node array (2m-1 values: m slots then internal nodes, root last)
+    pub fn raw(&self) -> Vec<V> {
+        self.0.verif_raw().to_vec()
+    }
+
+    /// re-materialise a tracker from a node array obtained by raw()
+    pub fn from_raw(m: usize, values: Vec<V>) -> Self {
+        MaxTracker(MaxValueTracker::verif_from_raw(m, values))
+    }
+}
